@@ -52,6 +52,7 @@ struct Scenario
   int freeze  = 0;  // first Export blocks until every producer has finished (producers never wait)
   int expfail = 0;  // exporter results: 0 all succeed, 1 scheduler-chosen failures
   int destroy = 0;  // 1: nobody calls Shutdown, the destructor does
+  int sto     = 0;  // Shutdown timeout class: 0 = default argument, 1 = 30us, 2 = 1ms, 3 = explicit zero
   int delay_ms = 5;
 };
 
@@ -333,7 +334,12 @@ static void run_scenario(const Scenario &sc)
               gate.cv.wait(lk);
           }
           emitf("{\"e\":\"SDCall\",\"s\":%d}", s);
-          bool r = proc->Shutdown();
+          // Shutdown drains the queue whatever timeout it is given (the statement has no exception for short
+          // timeouts): finite and zero timeouts are part of the scenario space.
+          bool r = sc.sto == 0   ? proc->Shutdown()
+                   : sc.sto == 1 ? proc->Shutdown(std::chrono::microseconds(30))
+                   : sc.sto == 2 ? proc->Shutdown(std::chrono::microseconds(1000))
+                                 : proc->Shutdown(std::chrono::microseconds(0));
           emitf("{\"e\":\"SDRet\",\"s\":%d,\"r\":%s}", s, r ? "true" : "false");
         });
     for (auto &t : producers)
@@ -399,19 +405,23 @@ static Scenario draw(uint64_t seed)
     // frozen worker: flushers with an unbounded wait would (legitimately) wait for the export
     sc.nf = 0;
   }
+  sc.sto = (int)(r() % 6);  // drawn last: the other fields keep their distribution per seed
+  if (sc.sto > 3)
+    sc.sto = 0;
   return sc;
 }
 
 static bool parse_scenario(const char *s, Scenario &sc)
 {
-  int v[12] = {0};
-  int n     = sscanf(s, "%d,%d,%d,%d,%d,%d,%d,%d,%d,%d,%d,%d", &v[0], &v[1], &v[2], &v[3], &v[4], &v[5], &v[6], &v[7],
-                     &v[8], &v[9], &v[10], &v[11]);
+  int v[13] = {0};
+  int n     = sscanf(s, "%d,%d,%d,%d,%d,%d,%d,%d,%d,%d,%d,%d,%d", &v[0], &v[1], &v[2], &v[3], &v[4], &v[5], &v[6], &v[7],
+                     &v[8], &v[9], &v[10], &v[11], &v[12]);
   if (n < 11)
     return false;
   sc.Q = v[0]; sc.B = v[1]; sc.np = v[2]; sc.nr = v[3]; sc.nf = v[4]; sc.ns = v[5];
   sc.lat = v[6]; sc.fto = v[7]; sc.post = v[8]; sc.freeze = v[9]; sc.expfail = v[10];
   sc.destroy = n > 11 ? v[11] : 0;
+  sc.sto     = n > 12 ? v[12] : 0;
   return true;
 }
 
@@ -456,12 +466,12 @@ static int explore(int argc, char **argv)
     }
     cfg.max_steps        = 30000;
     cfg.fair_extra_steps = 30000;
-    char hdr[256];
+    char hdr[384];
     snprintf(hdr, sizeof hdr,
              "{\"e\":\"Cfg\",\"kind\":\"%s\",\"Q\":%d,\"B\":%d,\"np\":%d,\"nr\":%d,\"nf\":%d,\"ns\":%d,\"lat\":%d,\"fto\":%d,"
-             "\"post\":%d,\"freeze\":%d,\"expfail\":%d,\"destroy\":%d,\"seed\":%llu}",
+             "\"post\":%d,\"freeze\":%d,\"expfail\":%d,\"destroy\":%d,\"sto\":%d,\"seed\":%llu}",
              K::name(), sc.Q, sc.B, sc.np, sc.nr, sc.nf, sc.ns, sc.lat, sc.fto, sc.post, sc.freeze, sc.expfail,
-             sc.destroy, (unsigned long long)cfg.seed);
+             sc.destroy, sc.sto, (unsigned long long)cfg.seed);
     hc::pending_header() = hdr;
     vs::Result res = vs::run(cfg, [&]() { run_scenario<K>(sc); });
     std::cout << hdr << "\n";
